@@ -117,7 +117,9 @@ def check_bond_writers(ctx, rule, prog):
         else:
             # mirrored pair: X.bonded_atoms gets Y and Y.bonded_atoms gets X
             edges = set()
-            for k in kinds:
+            for k, node_ in sites:
+                if _is_filter_of_own_list(node_):
+                    continue        # dropping entries from one's own list adds no edge
                 if k[0] == 'call:append':
                     edges.add((k[1], k[2]))
                 elif k[0] == 'store' and k[2].startswith('[') and k[2].endswith(']'):
@@ -130,6 +132,32 @@ def check_bond_writers(ctx, rule, prog):
                'writes to bonded_atoms keep the relation symmetric (%s)' % why,
                mod, sites[0][1])
     ctx.note('bond_writers', sorted(m.name + '.' + q for (m, q, _f) in writers))
+    # atoms leave a conformation together with the bonds to them: a function that
+    # replaces a container's atom list by a part of it also filters the bond
+    # lists of the atoms that stay (else they keep neighbours outside the atom
+    # set, which are counted as bonds and serve as interaction hydrogens)
+    for mod, qual, fn in prog.all_funcs():
+        if qual.endswith('__init__'):
+            continue
+        for node in walk_no_nested(fn):
+            if isinstance(node, ast.Assign) and isinstance(node.targets[0], ast.Attribute) \
+                    and node.targets[0].attr == 'atoms' and isinstance(node.value, (ast.Call, ast.ListComp)):
+                filters = [n for s_, n in writers.get((mod, qual, fn), []) if _is_filter_of_own_list(n)]
+                ctx.ob(rule, 'atoms-leave-with-their-bonds:%s.%s' % (mod.name, qual), bool(filters),
+                       '%s.%s replaces the atom list of a container by %s and filters the bond lists '
+                       'of the remaining atoms in the same step (%d filtering stores)'
+                       % (mod.name, qual, norm(node.value)[:60], len(filters)), mod, node)
+
+
+def _is_filter_of_own_list(node):
+    """``X.bonded_atoms = [v for v in X.bonded_atoms if <cond>]``"""
+    if not (isinstance(node, ast.Assign) and isinstance(node.targets[0], ast.Attribute)
+            and node.targets[0].attr == 'bonded_atoms' and isinstance(node.value, ast.ListComp)):
+        return False
+    comp = node.value
+    return len(comp.generators) == 1 and isinstance(comp.elt, ast.Name) \
+        and norm(comp.elt) == norm(comp.generators[0].target) \
+        and norm(comp.generators[0].iter) == norm(node.targets[0]) and bool(comp.generators[0].ifs)
     if len(writers) < 3:
         raise AnalysisError('L1: fewer than 3 writers of bonded_atoms found')
 
